@@ -15,8 +15,6 @@ pub struct VM {
     pub bp: u16,
 }
 
-/// the 16-bit little-endian operand at offset i of the code
-pub open spec fn u16_at(code: Seq<u8>, i: int) -> int { code[i] as int + 256 * (code[i + 1] as int) }
 
 /// frame conditions: what a step may NOT change
 pub open spec fn same_code(a: VM, b: VM) -> bool { a.instructions == b.instructions }
@@ -33,20 +31,6 @@ pub open spec fn same_but_ip_stack(a: VM, b: VM) -> bool {
 /// result relation of the binary operators (uninterpreted here: C06 decides what each operator computes; the
 /// machine contracts only say WHICH operator is applied to WHICH operands in WHICH order)
 pub uninterp spec fn binop_rel(op: int, left: Object, right: Object, r: Result<Object, Error>) -> bool;
-pub open spec fn op_add() -> int { 0 }
-pub open spec fn op_sub() -> int { 1 }
-pub open spec fn op_mul() -> int { 2 }
-pub open spec fn op_div() -> int { 3 }
-pub open spec fn op_rem() -> int { 4 }
-pub open spec fn op_lt() -> int { 5 }
-pub open spec fn op_lte() -> int { 6 }
-pub open spec fn op_gt() -> int { 7 }
-pub open spec fn op_gte() -> int { 8 }
-pub open spec fn op_eq() -> int { 9 }
-pub open spec fn op_neq() -> int { 10 }
-pub open spec fn op_and() -> int { 11 }
-pub open spec fn op_or() -> int { 12 }
-
 impl Object {
     // the operator methods as the machine sees them: total, result related to (op, left, right)
     #[verifier::external_body] pub fn add(self, rhs: Object, gc: &mut GC) -> (r: Result<Object, Error>) ensures binop_rel(op_add(), self, rhs, r), gc_same_objects(*old(gc), *final(gc), r) { unimplemented!() }
